@@ -48,7 +48,7 @@ def obligations(tier):
            bounds="26 (document, path, value) cases: strings (substring), dictionaries (key; value for a dict filter value), lists (any element), dotted paths through "
                   "dictionaries and lists x dict / library object / MemorySource / FileSystemStore x with a contradicting second filter"),
         CH("composite_filter_routes", H, "routes", t * 2, mode="E1s", functions=FM + FF[2:],
-           bounds="2 filters from 4 x 4 placements each (query, member A, member B, composite) x member order x 3 partitions of the population"),
+           bounds="2 filters from 5 (one separating the versions of an id) x 4 placements each (query, member A, member B, composite) x member order x 3 partitions of the population; query, all_versions and get of members and composite"),
     ]
     for q in range(4):
         obls.append(CH("fs_optimiser_three_allow_filters_p%d" % q, H, "optimiser3_allow", t * 2, mode="E1s", functions=FO + FM[:1] + ["stix2.datastore.filesystem.FileSystemSource.query"],
